@@ -49,7 +49,7 @@ def valid_docs():
             yield dict(target=target, nr=nr, pairs=dict(zip(("AlAl", "AlCu", "CuCu"), kinds)))
 
 
-def reference_tables(run):
+def reference_tables(run, clause_engine="layout"):
     """bytes of the table of every valid document, each tabulated from its hand-written file in a directory of its own"""
     ref = {}
     d = tempfile.mkdtemp(prefix="verif-potfs-ref-")
@@ -67,7 +67,12 @@ def reference_tables(run):
                 return None
             data = open(outp, "rb").read()
             if not data or data in ref:
-                run.machinery("potfs: reference tables are not distinct / empty for %s" % json.dumps(doc))
+                # documents that differ in target, row count or in what an entry is have different tables: equal bytes mean that
+                # one of the two tabulations (made one after the other in this process) did not tabulate its own document
+                run.violation(dict(engine=clause_engine, clause="session-rejected", route="cli", target="session", family="session"),
+                              "[reference-tables] the hand-written file of %s, tabulated in a directory of its own after %d other documents in this process, gives %s" % (
+                                  json.dumps(doc, sort_keys=True), n, "an empty table" if not data else "the very bytes of the table of %s" % json.dumps(ref[data], sort_keys=True)),
+                              dict(doc=doc, text=render(doc)))
                 return None
             ref[data] = doc
     finally:
@@ -225,7 +230,7 @@ def check(run, tier, seed, clause_engine="layout"):
                 if not res.coverage.get(a):
                     run.machinery("potfs: action %s never taken in %s" % (a, cfg))
     # (T) sessions of the real command line
-    ref = reference_tables(run)
+    ref = reference_tables(run, clause_engine)
     if ref is None:
         return
     n_sessions, n_events, processes = (24, 14, 2) if tier == "quick" else (160, 24, 10)
